@@ -17,6 +17,8 @@
      ri <k> <s> <E> <density>               0 Re, 1 Im, 2 complex
      cget <s> | ccopy <s> | clist           built-in crystal array: lookup (a copy, released with Crystal_Free), MakeCopy+Free, names list
      ainit <n> | aadd <s> <newname> | aread <path> | aget <s> | alist | afree      one user crystal array at a time
+     cfun <k> <crystal> <E> <h> <k> <l> <debye>   Bragg_angle, Q_scattering_amplitude, F_H, F_H_Partial, UnitCellVolume, dSpacing on a copy
+     af <Z> <E> <q> <debye>                 Atomic_Factors
      err <k>                                xrl_error object life cycles (set / propagate / clear)
    A line prefixed `N:` runs the same operation WITHOUT an error slot.
    Answer:  `<rc> d=<live blocks after the operation and its releases minus before> e=<0|1 error object was set> c=<error code|-1> m=<message length> v=<x + bits of the numeric result | ->`
@@ -28,6 +30,7 @@
 #include <stdint.h>
 #include <stdarg.h>
 #include <locale.h>
+#include <math.h>
 #include "xraylib.h"
 #include "xraylib-error-private.h"
 
@@ -107,6 +110,24 @@ int main(void) {
     else if (!strcmp(op, "ccopy") && nt == 2) {
       Crystal_Struct *c = Crystal_GetCrystal(unesc(tok[1], b1), NULL, ep);
       if (c) { Crystal_Struct *d = Crystal_MakeCopy(c, ep); rc = d != NULL; Crystal_Free(d); Crystal_Free(c); }
+    }
+    else if (!strcmp(op, "cfun") && nt == 8) {      /* cfun <k> <crystal> <E> <h> <k> <l> <debye>: the numeric crystal functions on a copy of a built-in crystal */
+      int k = atoi(tok[1]); double E = dbl(tok[3]); int h = atoi(tok[4]), kk = atoi(tok[5]), l = atoi(tok[6]); double deb = dbl(tok[7]);
+      Crystal_Struct *c = Crystal_GetCrystal(unesc(tok[2], b1), NULL, NULL);
+      /* an unknown name gives c = NULL: the functions must reject a NULL crystal with an error */
+      if (k == 0) val = Bragg_angle(c, E, h, kk, l, ep);
+      else if (k == 1) val = Q_scattering_amplitude(c, E, h, kk, l, 1.0, ep);
+      else if (k == 2) { xrlComplex z = Crystal_F_H_StructureFactor(c, E, h, kk, l, deb, 1.0, ep); val = fabs(z.re) + fabs(z.im); }
+      else if (k == 3) { xrlComplex z = Crystal_F_H_StructureFactor_Partial(c, E, h, kk, l, deb, 1.0, 2, 2, 2, ep); val = fabs(z.re) + fabs(z.im); }
+      else if (k == 4) val = Crystal_UnitCellVolume(c, ep);
+      else val = Crystal_dSpacing(c, h, kk, l, ep);
+      rc = val != 0.0; isnum = 1;
+      Crystal_Free(c);
+    }
+    else if (!strcmp(op, "af") && nt == 5) {        /* af <Z> <E> <q> <debye> */
+      double f0 = 0, fp = 0, fpp = 0;
+      rc = Atomic_Factors(atoi(tok[1]), dbl(tok[2]), dbl(tok[3]), dbl(tok[4]), &f0, &fp, &fpp, ep);
+      val = fabs(f0) + fabs(fp) + fabs(fpp); isnum = 1;
     }
     else if (!strcmp(op, "clist")) { int n = 0; char **l = Crystal_GetCrystalsList(NULL, &n, ep); rc = n; free_list(l, n); }
     else if (!strcmp(op, "ainit") && nt == 2) {
